@@ -1,5 +1,5 @@
 // C18 — several threads use ONE shared domain object through its const operations (and copy-construct from it) on
-// thread-private elements.  One request per line:   <class> <parameter index> <threads> <iterations>
+// thread-private elements.  One request per line:   <class> <parameter index> <threads> <iterations> [nocopy]
 // Every request runs in a fork()ed child.  The reference digest is the probe of a copy made before the threads start; each
 // thread then repeats  { probe(shared) ; copy = copy-construct(shared) ; probe(copy) ; destroy copy }  and compares every
 // digest with the reference.   Output:   <class> <P> <T> ok   |   ... DIFF thread=<t> iter=<i> what=<shared|copy>   |   ... X <signal>
@@ -46,7 +46,7 @@ static Any* make18(const std::string& cls, int P) {
 
 static uint64_t digest(Any* a) { Sink s(0, false); a->probe(s); s.close(); return s.acc; }
 
-static void run_case(const std::string& cls, int P, int T, int iters) {
+static void run_case(const std::string& cls, int P, int T, int iters, bool nocopy) {
     Any* shared = make18(cls, P);
     if (!shared) { printf("%s %d %d X unknown-class\n", cls.c_str(), P, T); return; }
     uint64_t ref;
@@ -58,6 +58,7 @@ static void run_case(const std::string& cls, int P, int T, int iters) {
         while (!go.load()) { }
         for (int i = 0; i < iters; ++i) {
             if (digest(shared) != ref) { if (!bad.exchange(1)) { bt = t; bi = i; bw = 0; } }
+            if (nocopy) continue;
             Any* c = shared->copy();
             if (digest(c) != ref) { if (!bad.exchange(1)) { bt = t; bi = i; bw = 1; } }
             delete c;
@@ -78,12 +79,12 @@ int main() {
     while (std::getline(std::cin, line)) {
         if (line.empty()) continue;
         std::istringstream is(line); std::string cls; int P = 0, T = 2, iters = 1;
-        is >> cls >> P >> T >> iters;
+        is >> cls >> P >> T >> iters; std::string opt; bool nocopy = false; while (is >> opt) if (opt == "nocopy") nocopy = true;
         fprintf(stderr, "C18CLASS %s\n", cls.c_str()); fflush(stderr);
-        if (nofork) { run_case(cls, P, T, iters); fflush(stdout); continue; }
+        if (nofork) { run_case(cls, P, T, iters, nocopy); fflush(stdout); continue; }
         fflush(stdout);
         pid_t pid = fork();
-        if (pid == 0) { alarm(120); run_case(cls, P, T, iters); fflush(stdout); fflush(stderr); _exit(0); }
+        if (pid == 0) { alarm(120); run_case(cls, P, T, iters, nocopy); fflush(stdout); fflush(stderr); _exit(0); }
         int st = 0; waitpid(pid, &st, 0);
         if (WIFSIGNALED(st)) printf("%s %d %d X signal-%d\n", cls.c_str(), P, T, WTERMSIG(st));
         else if (WEXITSTATUS(st) != 0) printf("%s %d %d X exit-%d\n", cls.c_str(), P, T, WEXITSTATUS(st));
